@@ -66,6 +66,8 @@ type setOp struct {
 	I  *idxArg `json:"i,omitempty"`
 	J  *idxArg `json:"j,omitempty"`
 	Q  bool    `json:"q,omitempty"` // quiet: the views are not looked at after this operation
+	// the operand of a bulk operation: 0 a List, 1 an Array, 2 the set itself (Vs is ignored)
+	Opd int `json:"opd,omitempty"`
 }
 
 type setCase struct {
@@ -149,6 +151,7 @@ func genSetCase(s core.Source) setCase {
 			for k := 0; k < n; k++ {
 				op.Vs = append(op.Vs, s.Choose(dom, "val"))
 			}
+			op.Opd = []int{0, 0, 0, 1, 1, 2}[s.Choose(6, "operand")]
 		case "GetValue":
 			op.I = genIdx(s, false, "i")
 		case "GetValues":
@@ -161,12 +164,14 @@ func genSetCase(s core.Source) setCase {
 }
 
 func strOfCode(code int) string {
-	// base-3 digits as letters: "", "a", "é", "ü", "aa", ... so that proper prefixes occur
+	// base-5 digits as letters: "", "a", "é", "ü", "\xe9", "\xe8", "aa", ... so that proper prefixes occur.
+	// Two of the letters are two bytes long and share their first byte; two are single bytes that are not
+	// valid UTF-8 (Latin-1 text): they decode to the same replacement rune but are different strings.
 	s := ""
 	for code > 0 {
 		code--
-		s = string([]rune{'a', 'é', 'ü'}[code%3]) + s // two of the three letters are two bytes long and share their first byte
-		code /= 3
+		s = []string{"a", "é", "ü", "\xe9", "\xe8"}[code%5] + s
+		code /= 5
 	}
 	return s
 }
@@ -558,6 +563,12 @@ func execSet[E any](c setCase, se setElem[E]) (res core.Result) {
 		what := op.Op
 		var v *core.Violation
 		probes := op.Vs
+		operandOf := func(op setOp) col.Sequential[E] {
+			if op.Opd == 1 {
+				return col.Array[E](n).MakeFromArray(vals(op.Vs))
+			}
+			return col.List[E](n).MakeFromArray(vals(op.Vs))
+		}
 		switch op.Op {
 		case "AddValue":
 			k := code(op.V)
@@ -569,13 +580,19 @@ func execSet[E any](c setCase, se setElem[E]) (res core.Result) {
 			set.AddValue(se.val(k))
 			probes = []int{op.V}
 		case "AddValues":
+			if op.Opd == 2 {
+				what = "AddValues(the set itself)"
+				res.Classes = append(res.Classes, "operand-is-the-receiver")
+				set.AddValues(set)
+				break
+			}
 			what = fmt.Sprintf("AddValues(%v)", vals(op.Vs))
 			for _, k := range op.Vs {
 				if !add(code(k)) {
 					dupAdd = true
 				}
 			}
-			set.AddValues(col.List[E](n).MakeFromArray(vals(op.Vs)))
+			set.AddValues(operandOf(op))
 		case "RemoveValue":
 			k := code(op.V)
 			what = fmt.Sprintf("RemoveValue(%v)", se.val(k))
@@ -589,13 +606,20 @@ func execSet[E any](c setCase, se setElem[E]) (res core.Result) {
 			set.RemoveValue(se.val(k))
 			probes = []int{op.V}
 		case "RemoveValues":
+			if op.Opd == 2 {
+				what = "RemoveValues(the set itself)"
+				res.Classes = append(res.Classes, "operand-is-the-receiver")
+				model = nil
+				set.RemoveValues(set)
+				break
+			}
 			what = fmt.Sprintf("RemoveValues(%v)", vals(op.Vs))
 			for _, k := range op.Vs {
 				if !remove(code(k)) {
 					absentRemove = true
 				}
 			}
-			set.RemoveValues(col.List[E](n).MakeFromArray(vals(op.Vs)))
+			set.RemoveValues(operandOf(op))
 		case "RemoveAll":
 			model = nil
 			set.RemoveAll()
@@ -608,7 +632,11 @@ func execSet[E any](c setCase, se setElem[E]) (res core.Result) {
 				anyIn = anyIn || in
 				allIn = allIn && in
 			}
-			operand := col.List[E](n).MakeFromArray(vals(op.Vs))
+			operand := operandOf(op)
+			if op.Opd == 2 {
+				operand, anyIn, allIn = set, len(model) > 0, true
+				op.Vs = nil
+			}
 			if op.Op == "ContainsAny" {
 				if got := set.ContainsAny(operand); got != anyIn {
 					v = core.Violate("C02/ContainsAny", "step %d: ContainsAny(%v) = %v, members %v", step, vals(op.Vs), got, modelString(model))
